@@ -751,18 +751,8 @@ def ctor_parts(src, nparams):
         params = split_params(src[i + 1:j])
         if len(params) != nparams:
             continue
-        k = src.index("{", j)
-        inits = src[j + 1:k].strip()
-        if not inits.startswith(":"):
-            raise TranslateError("no member initialisers")
-        e = match_close(src, k, "{", "}")
-        ini = {}
-        for it in split_params(inits[1:]):
-            mm = re.match(r"^\s*(\w+)\s*[\(\{](.*)[\)\}]\s*$", it)
-            if not mm:
-                raise TranslateError("initialiser not understood: %r" % it)
-            ini[mm.group(1)] = mm.group(2).strip()
-        return param_names(src[i + 1:j]), ini, src[k + 1:e]
+        ini, body, _ = ctor_inits_at(src, j + 1)
+        return param_names(src[i + 1:j]), ini, body
     raise TranslateError("constructor with %d parameters not found" % nparams)
 
 
@@ -806,6 +796,12 @@ def table_ctor_of(src, nparams):
             q = re.sub(r"static_cast\s*<[^>]*>", "", q)
             m1 = re.match(r"^size_\s*=\s*(?:std\s*::\s*)?max\s*(?:<[^>]*>)?\s*\((.+)\)$", q)
             m2 = re.match(r"^indices_\s*\[(.+)\]\s*=\s*(.+)$", q)
+            m3 = re.match(r"^if\s*\((.+?)(>|<)(.+)\)\s*size_\s*=\s*(.+)$", q)   # if(LOC > size_) size_ = LOC
+            if m3 and not m1:
+                a, op, b, v = m3.group(1).strip(), m3.group(2), m3.group(3).strip(), m3.group(4).strip()
+                big, small = (a, b) if op == ">" else (b, a)
+                if small == "size_" and big == v:
+                    m1 = re.match(r"^size_\s*=\s*max\s*\((.+)\)$", "size_ = max(size_, %s)" % v)
             if m1 and fold is None and cells is None and slot is None and cur == "size":
                 a = split_params(m1.group(1))
                 if len(a) != 2:
@@ -1046,14 +1042,16 @@ def init_value(expr, params):
 def ctors_of(src, head_rx):
     """all constructors `HEAD(params) : inits {}` -> {nparams: Lean LIdxCtor}"""
     res = {}
-    for m in re.finditer(head_rx + r"\s*\(([^()]*)\)\s*:\s*([^{};]*)\{\s*\}", src):
+    for m in re.finditer(head_rx + r"\s*\(([^()]*)\)(?=\s*:[^:])", src):
         params = param_names(m.group(1)) if m.group(1).strip() else []
+        ini, body, _ = ctor_inits_at(src, m.end())
+        if body.strip():
+            raise TranslateError("constructor body is not empty")
         vals = {"localIndex_": ".zero", "attribute_": ".zero", "public_": ".falseV", "state_": None}
-        for it in split_params(m.group(2)):
-            mm = re.match(r"^\s*(\w+)\s*[\(\{](.*)[\)\}]\s*$", it)
-            if not mm or mm.group(1) not in MEMBERS:
-                raise TranslateError("initialiser not understood: %r" % it)
-            vals[mm.group(1)] = init_value(mm.group(2), params)
+        for name, text in ini.items():
+            if name not in MEMBERS:
+                raise TranslateError("initialiser not understood: %r" % name)
+            vals[name] = init_value(text, params)
         if vals["state_"] is None:
             raise TranslateError("state_ is not initialised")
         res[len(params)] = "some { loc := %s, attr := %s, pub := %s, state := %s }" % (
@@ -1087,17 +1085,42 @@ def state_enum_of(lsrc):
     return "[" + ", ".join('"%s"' % x for x in names) + "]"
 
 
+def ctor_inits_at(src, k):
+    """src[k:] = ` : a(x), b{y} { body }` -> ({member: initialiser text}, body, index behind the body); member
+    initialisers may use parentheses or braces"""
+    m = re.match(r"\s*:", src[k:])
+    if not m:
+        raise TranslateError("no member initialisers")
+    k += m.end()
+    ini = {}
+    while True:
+        m = re.match(r"\s*(\w+)\s*(?=[\(\{])", src[k:])
+        if not m:
+            raise TranslateError("member initialiser not understood: %r" % src[k:k + 30])
+        k += m.end()
+        e = match_close(src, k, src[k], ")" if src[k] == "(" else "}")
+        ini[m.group(1)] = src[k + 1:e].strip()
+        k = e + 1
+        m = re.match(r"\s*,", src[k:])
+        if m:
+            k += m.end()
+            continue
+        m = re.match(r"\s*\{", src[k:])
+        if not m:
+            raise TranslateError("constructor body not found")
+        b = k + m.end() - 1
+        e = match_close(src, b, "{", "}")
+        return ini, src[b + 1:e], e + 1
+
+
 def set_ctor_of(src):
     """ParallelIndexSet<TG,TL,N>::ParallelIndexSet() : state_(..), seqNo_(..), deletedEntries_(..) {} -> Lean SetCtor"""
-    m = re.search(r"ParallelIndexSet\s*<[^>]*>\s*::\s*ParallelIndexSet\s*\(\s*\)\s*:\s*([^{};]*)\{\s*\}", src)
+    m = re.search(r"ParallelIndexSet\s*<[^>]*>\s*::\s*ParallelIndexSet\s*\(\s*\)(?=\s*:)", src)
     if not m:
-        raise TranslateError("default constructor with empty body not found")
-    vals = {}
-    for it in split_params(m.group(1)):
-        mm = re.match(r"^\s*(\w+)\s*[\(\{](.*)[\)\}]\s*$", it)
-        if not mm:
-            raise TranslateError("initialiser not understood: %r" % it)
-        vals[mm.group(1)] = mm.group(2).strip()
+        raise TranslateError("default constructor not found")
+    vals, body, _ = ctor_inits_at(src, m.end())
+    if body.strip():
+        raise TranslateError("constructor body is not empty")
     extra = set(vals) - {"state_", "seqNo_", "deletedEntries_", "localIndices_", "newIndices_"}
     if extra or vals.get("localIndices_", "") or vals.get("newIndices_", ""):
         raise TranslateError("unexpected initialisers")
